@@ -16,6 +16,7 @@ use crate::newline::SplitLinesByNewline;
 use crate::newline::StringNewline;
 use crate::outcome::Outcome;
 use crate::output::ExitStatus;
+use crate::rules::rule::ENDS_LIKE_MODIFIER;
 use crate::testcase::TestCaseError;
 
 pub(super) trait OutcomeTestGenerator {
@@ -35,6 +36,37 @@ impl Outcome {
             ))
         });
         generated
+    }
+
+    /// Renders a line of output as the expectation that is read back as
+    /// exactly that line, also if it looks like test document syntax
+    fn generate_expectation(&self, line: &[u8], first: bool) -> String {
+        let content = line.trim_newlines();
+        let text = self.escaping.escaped_expectation(content);
+        if self.escaping.has_unprintable(content) {
+            // escaped expectations disregard the newline
+            return text;
+        }
+        if text.starts_with("$ ") || (first && text.starts_with("> ")) {
+            // would be read as (part of) the shell expression
+            return format!(
+                "\\x{:02x}{} (escaped)",
+                content[0],
+                text[1..].replace('\\', "\\\\")
+            );
+        }
+        let is_exit_code = text.len() > 2
+            && text.starts_with('[')
+            && text.ends_with(']')
+            && text[1..text.len() - 1].chars().all(|ch| ch.is_ascii_digit());
+        if !line.ends_with(b"\n") {
+            format!("{text} (no-eol)")
+        } else if is_exit_code || ENDS_LIKE_MODIFIER.is_match(&text) {
+            // would be read as exit code or with another kind or quantifier
+            format!("{text} (equal)")
+        } else {
+            text
+        }
     }
 
     fn generate_testcase_exit_code(&self) -> Option<String> {
@@ -73,18 +105,9 @@ impl OutcomeTestGenerator for Outcome {
                                 generated.push_str(&expectation.original_string().assure_newline())
                             }
                             DiffLine::UnexpectedLines { lines } => {
-                                for (_, line) in lines {
-                                    let suffix = if line.ends_with(b"\n") {
-                                        ""
-                                    } else {
-                                        " (no-eol)"
-                                    };
-                                    let line = formatln!(
-                                        "{}{}",
-                                        self.escaping
-                                            .escaped_expectation((&line[..]).trim_newlines()),
-                                        suffix
-                                    );
+                                for (index, line) in lines {
+                                    let line =
+                                        formatln!("{}", self.generate_expectation(line, *index == 0));
                                     generated.push_str(&line)
                                 }
                             }
@@ -101,11 +124,11 @@ impl OutcomeTestGenerator for Outcome {
                     expected: _,
                 } => {
                     let mut generated = self.generate_testcase_expression();
-                    let mut output = self.output.stdout.to_output_string(None, &self.escaping);
-                    if !output.is_empty() && !output.ends_with('\n') {
-                        output.push_str(" (no-eol)\n")
+                    let stream: &[u8] = (&self.output.stdout).into();
+                    for (index, line) in stream.split_at_newline().iter().enumerate() {
+                        generated
+                            .push_str(&formatln!("{}", self.generate_expectation(line, index == 0)));
                     }
-                    generated.push_str(&output);
                     generated.push_str(&formatln!("[{}]", *actual));
                     Ok(generated)
                 }
